@@ -294,10 +294,27 @@ func init() {
 					}
 					e.idp.mu.Lock()
 					e.idp.pkceFailures = nil
+					tokenCalls0 := e.idp.tokenCalls
 					e.idp.mu.Unlock()
 					v, real := e.serveCase(reqSpec{Target: target, Cookie: vr.cookie}, nil, "login:"+vr.name)
 					if v == nil {
 						continue
+					}
+					// no validly signed CSRF cookie under this login's cookie name ⇒ there is no verifier of THIS login to redeem with:
+					// the authorization code must not go to the token endpoint at all (with some other login's verifier, or none)
+					switch vr.name {
+					case "absent", "tampered", "resigned-other-secret", "other-browser-renamed", "other-login-renamed", "replica-clock+6m", "other-browser", "other-login":
+						// (with fixed-name CSRF cookies another login's cookie IS a validly signed cookie of that name: it is redeemed with
+						// and refused on the state comparison afterwards — the documented order)
+						sameName := (strings.HasPrefix(vr.name, "other-browser") && lb.name == sl.name) || (strings.HasPrefix(vr.name, "other-login") && other.name == sl.name)
+						e.idp.mu.Lock()
+						redeemed := e.idp.tokenCalls > tokenCalls0
+						e.idp.mu.Unlock()
+						c.count("c05:no-cookie-no-redeem")
+						if redeemed && !sameName {
+							c.violation("C05", "the authorization code was sent to the token endpoint although the callback carried no validly signed CSRF cookie of that login: it was redeemed with another login's verifier (or none)",
+								map[string]interface{}{"variant": vr.name, "cfg": fmt.Sprintf("%+v", cfg), "response": real, "idp_pkce_failures": fmt.Sprint(e.idp.pkceFailures)})
+						}
 					}
 					est := false
 					for _, ck := range v.Cookies {
@@ -628,6 +645,49 @@ func init() {
 					c.violation("C05", "ID token with a wrong/absent/raw/replayed nonce yielded a session", map[string]interface{}{"mode": mode, "cfg": fmt.Sprintf("%+v", cfg), "response": real})
 				}
 			}
+			// the SAME browser, after its login completed: the identity provider (or an attacker in its place) sends the browser back to
+			// the callback with the same state and a new code that redeems to the VERY id_token the completed login received. The
+			// completed login consumed its CSRF cookie (the browser applied the callback's response), so nothing is left to match
+			// the replayed nonce against
+			{
+				b := newBrowser()
+				if sl := e.startOne(b, "R", "/replayed"); sl != nil {
+					target, g := e.callbackFor(sl, u, nil)
+					if g != nil {
+						v1 := e.do(reqSpec{Target: target, Cookie: b.cookieHeader()})
+						if v1.raw != nil {
+							b.apply(v1.raw)
+						}
+						e.idp.mu.Lock()
+						first := e.idp.lastIDToken
+						e.idp.mu.Unlock()
+						if v1.Status == 302 && hasSessionSet(v1, e.opts.Cookie.Name) && first != "" {
+							delete(b.jar, e.opts.Cookie.Name) // the session itself is not presented: only what the login left behind
+							for n := range b.jar {
+								if isSessionCookieNameH(e.opts.Cookie.Name, n) {
+									delete(b.jar, n)
+								}
+							}
+							e.idp.mu.Lock()
+							e.idp.forceIDToken = first
+							e.idp.mu.Unlock()
+							target2, g2 := e.callbackFor(sl, u, nil)
+							if g2 != nil {
+								v2 := e.do(reqSpec{Target: target2, Cookie: b.cookieHeader()})
+								c.casen("c05|"+fmt.Sprintf("%+v|replay-same-browser", lc), fmt.Sprint(v2.Status))
+								c.count("nonce:replay-same-browser")
+								if v2.Status == 302 && hasSessionSet(v2, e.opts.Cookie.Name) && !lc.skipNonce {
+									c.violation("C05", "a replayed ID token (the one a COMPLETED login of the same browser received, sent again with the same state and a new code) yielded a session: the completed login did not consume its CSRF cookie",
+										map[string]interface{}{"cfg": fmt.Sprintf("%+v", cfg), "cookies_left_after_login": jarNamesOf(b), "status": v2.Status})
+								}
+							}
+							e.idp.mu.Lock()
+							e.idp.forceIDToken = ""
+							e.idp.mu.Unlock()
+						}
+					}
+				}
+			}
 			// randomness faults at every read position of `start`: either an error page, or a login whose
 			// nonces are present and fresh — never a login with an empty nonce
 			for k := 1; k <= 4; k++ {
@@ -674,6 +734,69 @@ func init() {
 			e.close()
 		}
 		_ = time.Now
+		// A redemption the identity provider REFUSES (expired / re-used code, outage) ends in an error page — with
+		// --show-debug-on-error a page that quotes the underlying error.  Whatever it quotes: never the PKCE verifier, the state
+		// nonce or the OIDC nonce of the login (they exist to be known to the proxy and the token endpoint only)
+		for _, pk := range []string{"S256", "plain", ""} {
+			for _, redis := range []bool{false, true} {
+				e, err := newEnv(c, proxyCfg{PKCE: pk, Redis: redis, ShowDebugOnError: true, InjectRequest: defaultInject()})
+				if err != nil {
+					c.violation("HARNESS", "env: "+err.Error(), nil)
+					continue
+				}
+				for _, fk := range []string{"400-invalid-grant", "500", "reset", "non-json"} {
+					b := newBrowser()
+					sl := e.startOne(b, "D", "/after")
+					if sl == nil || sl.plain == nil {
+						continue
+					}
+					target, g := e.callbackFor(sl, u, nil)
+					if g == nil {
+						continue
+					}
+					e.idp.mu.Lock()
+					e.idp.fault = func(ep string, n int, w http.ResponseWriter, r *http.Request) bool {
+						if ep != "/token" {
+							return false
+						}
+						switch fk {
+						case "400-invalid-grant":
+							w.Header().Set("Content-Type", "application/json")
+							w.WriteHeader(400)
+							w.Write([]byte(`{"error":"invalid_grant","error_description":"code expired"}`))
+						case "500":
+							w.WriteHeader(500)
+						case "reset":
+							if hjk, ok := w.(http.Hijacker); ok {
+								conn, _, _ := hjk.Hijack()
+								conn.Close()
+							}
+						default:
+							w.Write([]byte("<html>maintenance</html>"))
+						}
+						return true
+					}
+					e.idp.mu.Unlock()
+					v := e.do(reqSpec{Target: target, Cookie: b.cookieHeader()})
+					e.idp.mu.Lock()
+					e.idp.fault = nil
+					e.idp.mu.Unlock()
+					c.casen(fmt.Sprintf("c05|debug-page|%s|%v|%s", pk, redis, fk), fmt.Sprint(v.Status))
+					c.count("c05:refused-redemption-page")
+					hay := v.Body + "\n" + fmt.Sprint(v.Header)
+					for what, secret := range map[string]string{"PKCE verifier": sl.plain.Verifier, "state nonce": string(sl.plain.State), "OIDC nonce": string(sl.plain.Nonce)} {
+						if len(secret) >= 16 && strings.Contains(hay, secret) {
+							c.violation("C05", "the error page of a refused code redemption (show-debug-on-error) discloses the "+what+" of the login",
+								map[string]interface{}{"pkce": pk, "redis": redis, "token_endpoint": fk, "status": v.Status, "page_excerpt": truncate(v.Body[strings.Index(hay, secret)-min(60, strings.Index(hay, secret)):], 200)})
+						}
+					}
+					if hasSessionSet(v, e.opts.Cookie.Name) {
+						c.violation("C14", "session created although the code redemption failed", map[string]interface{}{"token_endpoint": fk})
+					}
+				}
+				e.close()
+			}
+		}
 		c.close([]string{"c03:established", "c03:rejected", "c03:state-variant", "nonce:echo", "nonce:raw", "pkce:S256", "kind:redirect", "kind:errorPage", "c05:rand-fault", "c05:fresh-check", "c08:no-email", "c03:sweep-state", "c03:sweep-cookie", "c03:tabs", "provider:entra-id", "c03:bare-start", "c03:form-post", "c05:implicit-start", "nonce:replay-token"})
 	})
 }
